@@ -68,6 +68,10 @@ class Sandbox:
         w("invalid_schema_empty_object.graphql", "type Empty type Query { e: Empty }")
         w("invalid_schema_duplicate_type.graphql", "type A { x: Int } type A { y: Int } type Query { a: A }")
         w("typename_query.graphql", "query Q { __typename }")
+        w("op_named_enums.graphql", "query enums { user(id: 1) { id } }")
+        w("op_named_client.graphql", "query Client { user(id: 1) { id } }")
+        w("op_named_exceptions.graphql", "query Exceptions { user(id: 1) { id } }")
+        w("get_user.py", "# a file to include that is named like an operation module\n")
         w("custom_base_client.py", "class OtherName:\n    pass\n")
         w("commented_base_client.py", "# class CustomBase used to live here\nimport httpx\n\nclass Other:\n    \"\"\"CustomBase replacement\"\"\"\n    def CustomBase_compat(self):\n        return httpx.AsyncClient\n")
         w("a_directory/inner.py", "x = 1\n")
@@ -134,8 +138,17 @@ def _violations(sb):
         ("schema-dir-with-one-bad-file", "client", C(schema_path=sb.p("schema_dir_bad")), (EX.InvalidGraphqlSyntax,)),
         ("schema-dir-files-invalid-alone-valid-when-joined", "client", C(schema_path=sb.p("schema_dir_split")), (EX.InvalidGraphqlSyntax,)),
         ("queries-dir-files-invalid-alone-valid-when-joined", "client", C(queries_path=sb.p("queries_dir_split")), (EX.InvalidGraphqlSyntax,)),
+        ("operation-module-collides:enums", "client", C(queries_path=sb.p("op_named_enums.graphql")), (CODEGEN,)),
+        ("operation-module-collides:client", "client", C(queries_path=sb.p("op_named_client.graphql")), (CODEGEN,)),
+        ("operation-module-collides:exceptions", "client", C(queries_path=sb.p("op_named_exceptions.graphql")), (CODEGEN,)),
+        ("module-name-collides:enums_module_name=base_model", "client", C(enums_module_name="base_model"), (CODEGEN,)),
+        ("file-to-include-named-like-an-operation-module", "client", C(files_to_include=[sb.p("get_user.py")]), (CODEGEN,)),
         ("queries-syntax", "client", C(queries_path=sb.p("bad_queries.graphql")), (EX.InvalidGraphqlSyntax,)),
         ("bad-target-file-type", "schema", S(target_file_path=sb.p("schema_out/schema.txt")), (EX.InvalidConfiguration,)),
+        ("bad-target-file-type:pyc", "schema", S(target_file_path=sb.p("schema_out/schema.pyc")), (EX.InvalidConfiguration,)),
+        ("bad-target-file-type:graphqls", "schema", S(target_file_path=sb.p("schema_out/schema.graphqls")), (EX.InvalidConfiguration,)),
+        ("bad-target-file-type:py.bak", "schema", S(target_file_path=sb.p("schema_out/schema.py.bak")), (EX.InvalidConfiguration,)),
+        ("bad-target-file-type:no-suffix", "schema", S(target_file_path=sb.p("schema_out/python")), (EX.InvalidConfiguration,)),
         ("schema-strategy-no-source", "schema", S(schema_path=_DROP), (EX.InvalidConfiguration, EX.MissingConfiguration)),
         ("schema-strategy-syntax", "schema", S(schema_path=sb.p("bad_syntax.graphql")), (EX.InvalidGraphqlSyntax,)),
     ]
